@@ -70,18 +70,15 @@ void efficient_list_prepend_list(ddpgenericlistref list, ddpgenericlistref other
 // the range is inclusive [start, end]
 // the indices are 0-based (like in C, not like in DDP)
 void efficient_list_delete_range(ddpgenericlistref list, ddpint start, ddpint end, ddpanyref any) {
-	if (list->len <= 0) {
-		return;
-	}
-
 	if (start > end) {
 		ddp_runtime_error(1, "start index ist größer als end index (" DDP_INT_FMT ", " DDP_INT_FMT ")", start, end);
 	}
 
-	const ddpvtable *vtable = ddp_get_generic_vtable(any);
+	if (start < 0 || end >= list->len) {
+		ddp_runtime_error(1, "Index außerhalb der Listen Länge (Bereich war " DDP_INT_FMT " bis " DDP_INT_FMT ", Listen Länge war " DDP_INT_FMT ")", start + 1, end + 1, list->len);
+	}
 
-	start = CLAMP(start, list->len);
-	end = CLAMP(end, list->len);
+	const ddpvtable *vtable = ddp_get_generic_vtable(any);
 
 	if (vtable->free_func != NULL) {
 		// free the old non-primitives before shallow-copying them
